@@ -183,6 +183,12 @@ func (p *NamePacket) UnmarshalPacketBody(buf *Buffer) (err error) {
 		return buf.Err
 	}
 
+	// Each entry is at least two length-prefixed strings and an attribute flags word (12 bytes):
+	// a larger count cannot fit in what is left, and must not size an allocation.
+	if count > buf.Len()/12 {
+		return ErrShortPacket
+	}
+
 	*p = NamePacket{
 		Entries: make([]*NameEntry, 0, count),
 	}
